@@ -94,6 +94,26 @@ Theorem C19_source_facts_lock : bbox_facts = bbox_facts_expected.
 Proof. exact bbox_facts_lock. Qed.
 Print Assumptions C19_source_facts_lock.
 
+(* ------------------------------------------------------------------ extension round 4: the search domain of lookup by id *)
+(* The tree with its sub-trees (clip-path / mask / pattern / feImage roots owned by groups and leaves: `fnode`).  tree/mod.rs
+   node_by_id walks `children` only (fact BF_NodeById), so lookup on the forest IS lookup on the renderable tree ... *)
+Theorem C19_forest_node_by_id_is_renderable_lookup : forall root id,
+  option_map f_erase (f_node_by_id root id) = node_by_id (f_erase root) id.
+Proof. exact f_node_by_id_erase. Qed.
+Print Assumptions C19_forest_node_by_id_is_renderable_lookup.
+
+(* ... it returns only renderable nodes carrying the id ... *)
+Theorem C19_forest_node_by_id_renderable : forall root id x,
+  f_node_by_id root id = Some x -> id <> ""%string /\ In (f_erase x) (descendants (f_erase root)) /\ fid x = id.
+Proof. exact f_node_by_id_renderable. Qed.
+Print Assumptions C19_forest_node_by_id_renderable.
+
+(* ... and answers None exactly when the id is empty or no renderable node carries it, whatever ids the sub-trees carry. *)
+Theorem C19_forest_node_by_id_none : forall root id,
+  f_node_by_id root id = None <-> id = ""%string \/ forall n, In n (descendants (f_erase root)) -> eid n <> id.
+Proof. exact f_node_by_id_none. Qed.
+Print Assumptions C19_forest_node_by_id_none.
+
 (* ------------------------------------------------------------------ non-vacuity *)
 Local Open Scope string_scope.
 (* F19 witness: a rect inside <g transform="translate(50,60)">: the content is drawn under translate(0,0) after the
@@ -121,4 +141,13 @@ Example C19_ex_by_id :
   let t := EGroup "" ts_identity ts_identity (mkbox 0 0 1 1)
              [EGroup "a" ts_identity ts_identity (mkbox 0 0 1 1) [ELeaf "b" ts_identity (mkbox 0 0 1 1)]; ELeaf "b" ts_identity (mkbox 0 0 2 2)] in
   node_by_id t "b" = Some (ELeaf "b" ts_identity (mkbox 0 0 1 1)) /\ node_by_id t "" = None /\ node_by_id t "zz" = None.
+Proof. vm_compute. repeat split. Qed.
+(* a clip path whose content carries the id "c" (seed C19-12 searched there): the forest contains a node with that id, lookup
+   does not find it; the renderable "b" below the clipped group is found *)
+Example C19_ex_forest_by_id :
+  let clip := FGroup "" ts_identity ts_identity (mkbox 0 0 1 1) [] [FLeaf "c" ts_identity (mkbox 0 0 5 5) []] in
+  let t := FGroup "" ts_identity ts_identity (mkbox 0 0 1 1) []
+             [FGroup "a" ts_identity ts_identity (mkbox 0 0 1 1) [clip] [FLeaf "b" ts_identity (mkbox 0 0 1 1) []]] in
+  existsb (fun n => String.eqb (fid n) "c") (f_all t) = true /\ f_node_by_id t "c" = None /\
+  f_node_by_id t "b" = Some (FLeaf "b" ts_identity (mkbox 0 0 1 1) []).
 Proof. vm_compute. repeat split. Qed.
